@@ -299,8 +299,9 @@ class Reference:
     def eval_rec(self, dest) -> Res:
         start, mx = self.rec[dest]
         r = self.demand(dest)
+        done = 0   # re-iterations of THIS activation of the subgraph (the bound is per activation)
         while r.ok and isinstance(r.val, tuple) and r.val and r.val[0] == 'R':
-            if self.iterations[dest] >= mx:
+            if done >= mx:
                 self.exhausted.add(dest)
                 node = self.nodes[dest]
                 if (node.get('retry') or {}).get('use_default'):
@@ -314,6 +315,7 @@ class Reference:
                 self.final[dest] = r
                 return r
             self.iterations[dest] += 1
+            done += 1
             self.epoch += 1
             for p in self._path(start, dest):
                 self.memo.pop(p, None)
